@@ -77,6 +77,21 @@ def run(rep):
                f"(found {r and (r[1].get('fp') if r[0] == 'call' else r)}): tests would share storage, so one test's writes are visible to another")
         ex = [t_ for _, t_ in c.calls() if (t_.get("fp", "")).endswith("TestExecutor::execute")]
         rep.ob("R2-executor-used-once", c.name.split("::{closure")[0], len(ex) == 1, c.file, c.lo, "each executor must run exactly one test")
+        # ... and the executor that runs the test is the one built for it in this invocation, not one kept from an earlier test
+        for ex_t in ex:
+            r2 = panics.root_call(c, ex_t["a"][0], depth=20)
+            hops = 0
+            while r2 and r2[0] == "call" and re.search(r"Try>::branch$|Try::branch$", r2[1].get("rn") or r2[1].get("fp", "")) and hops < 3:
+                hops += 1
+                r2 = panics.root_call(c, r2[1]["a"][0], depth=20)
+            own = bool(r2 and r2[0] == "call" and r2[1] is bt)
+            rep.ob("R2-test-runs-on-its-own-executor", c.name.split("::{closure")[0], own, c.file, ex_t["ln"],
+                   "the executor on which the test runs is not (only) the one built from this test's fresh setup in this invocation "
+                   f"(it derives from {r2 and (r2[1].get('fp') if r2[0] == 'call' else r2)}): an executor kept across tests keeps the interpreter's storage, "
+                   "so one test's contract storage writes are visible to the next")
+        others = [t_ for _, t_ in c.calls() if re.search(r"forc_test::execute::TestExecutor::(?!build$|execute$)\w+$", t_.get("fp", ""))]
+        rep.ob("R2-executor-not-repointed", c.name.split("::{closure")[0], not others, c.file, others[0]["ln"] if others else c.lo,
+               f"the per-test closure calls {others[0].get('fp') if others else ''} on an executor: an executor is built for one test and only executed")
     b = F.fn("forc_test::execute::TestExecutor::build")
     ws = [t_ for _, t_ in b.calls() if (t_.get("fp", "")).endswith("Interpreter::<M, S, Tx, Ecal, V>::with_storage") or "Interpreter" in t_.get("fp", "") and t_.get("fp", "").endswith("with_storage")]
     ok = False
